@@ -845,6 +845,37 @@ def expand_literal_quantifiers(fn: ast.FunctionDef, module_assigns: dict[str, as
     return new, count
 
 
+def update_zip_to_loop(fn: ast.FunctionDef) -> tuple[ast.FunctionDef, int]:
+    """`d.update(zip(A, B))` as a statement  ->  `for _k, _v in zip(A, B): d[_k] = _v`  (same order, same stores)"""
+    if not any(isinstance(n, ast.Call) and isinstance(n.func, ast.Attribute) and n.func.attr == "update" for n in ast.walk(fn)):
+        return fn, 0
+    count = 0
+
+    class T(ast.NodeTransformer):
+        def visit_Expr(self, node: ast.Expr):
+            nonlocal count
+            c = node.value
+            if isinstance(c, ast.Call) and isinstance(c.func, ast.Attribute) and c.func.attr == "update" and _pure_chain(c.func.value) and len(c.args) == 1 and not c.keywords and isinstance(c.args[0], ast.Call) and isinstance(c.args[0].func, ast.Name) and c.args[0].func.id == "zip" and len(c.args[0].args) == 2:
+                count += 1
+                k, v = f"__k{count}", f"__v{count}"
+                loop = ast.For(
+                    target=ast.Tuple(elts=[ast.Name(id=k, ctx=ast.Store()), ast.Name(id=v, ctx=ast.Store())], ctx=ast.Store()),
+                    iter=c.args[0],
+                    body=[ast.Assign(targets=[ast.Subscript(value=c.func.value, slice=ast.Name(id=k, ctx=ast.Load()), ctx=ast.Store())], value=ast.Name(id=v, ctx=ast.Load()))],
+                    orelse=[], type_comment=None,
+                )
+                return ast.copy_location(loop, node)
+            return node
+
+    new = copy.deepcopy(fn) if not getattr(fn, "_xsa_copy", False) else fn
+    new = T().visit(new)
+    if count == 0:
+        return fn, 0
+    ast.fix_missing_locations(new)
+    new._xsa_copy = True  # type: ignore[attr-defined]
+    return new, count
+
+
 def inline(fi) -> ast.AST:
     """Normalised copy of fi.raw_node: private helpers inlined, field aliases propagated (the node itself when
     nothing applies)."""
@@ -856,6 +887,7 @@ def inline(fi) -> ast.AST:
     new, _ = lockstep_to_zip(new)
     new, _ = unroll_literal_loops(new, getattr(fi.module, "assigns", {}))
     new, _ = getattr_constants(new)
+    new, _ = update_zip_to_loop(new)
     new, _ = expand_literal_quantifiers(new, getattr(fi.module, "assigns", {}))
     return new
 
